@@ -36,13 +36,16 @@ func retryCases(tier string) int { return vlib.TierN(tier, 320, 16000) }
 func rejectedCases(tier string) int { return vlib.TierN(tier, 160, 8000) }
 func reuseCases(tier string) int    { return vlib.TierN(tier, 320, 16000) }
 
+// class added in round 7 (appended again)
+func handoverCases(tier string) int { return vlib.TierN(tier, 240, 12000) }
+
 func init() {
 	vlib.Register(&vlib.Prop{
 		ID:              "C09",
 		Level:           "exploration",
 		RaceIsViolation: false,
 		Cases: func(tier string) int {
-			return exhBlocks(tier) + randCases(tier) + aliasCases(tier) + retryCases(tier) + rejectedCases(tier) + reuseCases(tier)
+			return exhBlocks(tier) + randCases(tier) + aliasCases(tier) + retryCases(tier) + rejectedCases(tier) + reuseCases(tier) + handoverCases(tier)
 		},
 		Rule: "exhaustive part (class exh): every middleware registration sequence over {router-level, handler A, handler B} of length 0..5 (quick) / 0..6 (thorough), " +
 			"with AddHandler(A)/AddHandler(B) in every position the API allows (before the first registration on that handler; both orders when adjacent), each also with " +
@@ -69,10 +72,16 @@ func init() {
 			"re-registers as soon as the name is not listed, then releases the call; poll = a goroutine started before the stop retries AddHandler until it no longer panics with DuplicateHandlerNameError while the logger yields; poll-slow = same with a logger that holds every call of a router " +
 			"goroutine until the retrying goroutine failed 2..6 more times or is done (the logger never looks at the message text; calls made from harness goroutines pass). The round goes on after old.Stopped() is closed with router-level and further handler-level registrations, in 40% rejected calls as above, and RunHandlers; " +
 			"the new handler (and the bystander) get one message: exactly the router-level middlewares plus its own in registration order, none of the stopped handler's (clauses reuse-mw-missing / reuse-mw-foreign / reuse-mw-order). " +
+			"Class handover (a handler starts while another one stops): a rand program (all 4 handlers run and have handled a message) followed by 1..3 rounds: while everything is quiet 1..3 new handlers are added (30%: with a name that extends the name of a handler about to stop) " +
+			"with 0..3 middlewares each, interleaved with 0..2 router-level registrations; then ONE step stops 1..2 running handlers (80%: ones with handler-level middlewares; by Handler.Stop, 30% by closing their subscriber = end of subscription) and calls RunHandlers for the new handlers WITHOUT waiting for Stopped(): " +
+			"issue=before: stops, then RunHandlers at once; issue=concurrent: a second goroutine issues the stops (after 0..3 yields) while the caller (after 0..3 yields) is in RunHandlers; issue=parked: RunHandlers first, the stops are issued once every starting handler sits in a middleware constructor. " +
+			"The middleware constructors (the func(HandlerFunc) HandlerFunc, which the Router calls from the starting handler's goroutine when it builds the chain) are plain, yield 1..4 times, take 100..500us (timer), or ctor=park: for each starting handler one of the middlewares it must run (router-level or own; 40% the innermost, whose constructor is called first) " +
+			"blocks in its constructor until the caller has seen Stopped() of every stopping handler (65% of the steps park; the rest leaves the interleaving to the scheduler). Only then the started handlers get their message: exactly the router-level middlewares plus their own, each once, in registration order " +
+			"(clauses handover-mw-duplicate / handover-mw-missing / handover-mw-foreign / handover-mw-order); surviving handlers with no later router-level registration get a second message at the end. Counters tell how many constructor calls really happened while a handler was stopping and how many stopped handlers were not yet Stopped() when RunHandlers returned. " +
 			"One message per started handler per round; each is judged against the reference model. " +
 			"A case is non-trivial when at least one judged handler ran >=2 middlewares mixing router-level and handler-level ones (nesting order observable) and at least one judged handler had a foreign " +
 			"handler's middleware registered before its start (exclusion observable); alias cases need in addition >=1 aliased call; retry cases instead need >=1 fault that fired, >=1 judged handler that a failed call had left unstarted " +
-			"and >=1 judged handler with >=2 publisher or subscriber decorators; rejected cases need in addition >=1 duplicate-name call that hit a not yet started handler with handler-level middlewares; reuse cases need in addition >=1 judged re-registered handler with middlewares of its own whose predecessor had some too; distinct = distinct block (exh) or distinct hash of the program texts incl. argument-passing marks, fault plans, rejected calls and reuse rounds (rand, alias, retry, rejected, reuse).",
+			"and >=1 judged handler with >=2 publisher or subscriber decorators; rejected cases need in addition >=1 duplicate-name call that hit a not yet started handler with handler-level middlewares; reuse cases need in addition >=1 judged re-registered handler with middlewares of its own whose predecessor had some too; handover cases need in addition >=1 judged handler started by a handover step that runs a middleware registered after a handler-level middleware of a handler stopped by that step, and >=1 constructor call observed while a stopping handler's Stopped() was still open; distinct = distinct block (exh) or distinct hash of the program texts incl. argument-passing marks, fault plans, rejected calls, reuse rounds and handover steps (rand, alias, retry, rejected, reuse, handover).",
 		Assumptions: []string{
 			"all registrations that may affect a handler happen before the Run/RunHandlers call that starts it; before further registrations are made every started handler has handled one message (so its asynchronous middleware snapshot is taken): registrations after a handler's start are unspecified and never judged",
 			"decorators are added before Run only",
@@ -81,6 +90,9 @@ func init() {
 			"a message that is never handled although the process is quiescent is reported as clause no-run (decided by the quiescence detector); a hang in Close/Run-return is reported inconclusive, it belongs to C06/C07",
 			"class rejected: only calls whose failure is documented (typed panic DuplicateHandlerNameError, panic 'handler is not started', error 'you can't call RunHandlers on non-running router') are issued; should such a call succeed, the case is inconclusive (what happens then is not specified)",
 			"class reuse: a name may be registered again as soon as AddHandler accepts it (the Router does not require waiting for Stopped()); only one handler is stopping at a time and 3 others keep the router open; router-level registrations are made only when no handler goroutine is starting or stopping (after old.Stopped(), before RunHandlers); Handler.AddMiddleware on the handle of a stopped handler is never called (a registration after the handler's start is unspecified); Router.Handlers() is read only while the stopping handler's goroutine is parked in the logger (it takes no lock)",
+			"class handover: Handler.Stop is asynchronous ('You can check if handler was stopped with Stopped()') and RunHandlers 'can be called multiple times safely', so starting handlers while others stop is supported use; a HandlerMiddleware may do set-up work (block, yield, sleep) when the Router calls it; " +
+				"all registrations of a round are made while no handler goroutine is starting or stopping (every started handler has handled a message, every stopped handler's Stopped() is closed); at least one handler that neither stops nor starts keeps the router open; " +
+				"a starting handler that never reaches its parking constructor is decided by the quiescence detector (then the step goes on unparked), never by a time-out",
 			"data races are not claimed by this property (Router.AddMiddleware takes no lock; the workload orders it after the snapshots by construction)",
 		},
 		Run: run,
@@ -105,7 +117,10 @@ func run(e *vlib.Env) vlib.Result {
 	}
 	class, tag := "rand", "rand"
 	gen := randProgram
-	if k := e.Idx - nb - randCases(e.Tier); k >= aliasCases(e.Tier)+retryCases(e.Tier)+rejectedCases(e.Tier) {
+	if k := e.Idx - nb - randCases(e.Tier); k >= aliasCases(e.Tier)+retryCases(e.Tier)+rejectedCases(e.Tier)+reuseCases(e.Tier) {
+		class, tag = "handover", "handover"
+		gen = handoverProgram
+	} else if k >= aliasCases(e.Tier)+retryCases(e.Tier)+rejectedCases(e.Tier) {
 		class, tag = "reuse", "reuse"
 		gen = reuseProgram
 	} else if k >= aliasCases(e.Tier)+retryCases(e.Tier) {
@@ -245,6 +260,21 @@ func runBatch(e *vlib.Env, class string, n int, prog func(i int) *program) vlib.
 		res.Count("AddHandler_retries_on_DuplicateHandlerNameError", tot.pollFails)
 		res.Count("Router_Handlers_polls", tot.polls)
 		res.NonTrivial = res.NonTrivial && tot.reuseObs > 0
+	}
+	if class == "handover" {
+		res.Count("handover_steps", tot.hoRounds)
+		res.Count("handlers_stopped_without_waiting_for_Stopped", tot.hoStops)
+		res.Count("handlers_stopped_by_end_of_subscription", tot.hoSubClose)
+		res.Count("handover_steps_stops_issued_by_second_goroutine_during_RunHandlers", tot.hoConcurrent)
+		res.Count("handover_steps_stops_issued_while_starting_handlers_sat_in_constructor", tot.hoParked)
+		res.Count("stopped_handlers_not_yet_Stopped_when_RunHandlers_returned", tot.hoOpenAtReturn)
+		res.Count("constructor_calls_parked_until_Stopped", tot.hoArrivals)
+		res.Count("constructor_calls_while_a_handler_was_stopping", tot.hoCtorBefore)
+		res.Count("constructor_calls_after_stopped_handlers_were_gone", tot.hoCtorAfter)
+		res.Count("handlers_started_while_another_stopped_judged", tot.hoJudged)
+		res.Count("handlers_started_while_another_stopped_removal_before_own_entries", tot.hoShiftObs)
+		res.Count("starting_handlers_never_reached_parking_constructor", tot.hoNoPark)
+		res.NonTrivial = res.NonTrivial && tot.hoShiftObs > 0 && tot.hoCtorBefore > 0
 	}
 	if smp != nil {
 		res.Sample = smp
